@@ -162,4 +162,280 @@ theorem infeasibleCheckL_sound (votes : Mat Rat) (rowT colT S T : List Nat)
   · intro j hj
     rw [← hc j hj, ← sumN_eq_sum, ← sumN_col, ((shapeOk_iff x _ _).mp hsx).1]
 
+/-! ### Part 2 — the port of tie-and-transfer (`VL.Biprop.evaluate`) -/
+
+theorem votesOk_nonneg {V : Mat Rat} (h : votesOk V = true) : ∀ i j, 0 ≤ vget V i j := by
+  intro i j
+  simp only [votesOk, Bool.and_eq_true, List.all_eq_true, decide_eq_true_eq] at h
+  unfold vget
+  simp only [List.getD_eq_getElem?_getD]
+  cases hi : V[i]? with
+  | none => simp
+  | some r =>
+    have hr : r ∈ V := List.mem_of_getElem? hi
+    simp only [Option.getD_some]
+    cases hj : r[j]? with
+    | none => simp
+    | some v => simpa using h.2 r hr v (List.mem_of_getElem? hj)
+
+theorem stateOk_iff {q : Rat} {V : Mat Rat} {s : State} :
+    stateOk q V s = true ↔ shapeOk s.x V.length (nCols V) = true ∧ LoopInv q V V.length (nCols V) s := by
+  simp only [stateOk, Bool.and_eq_true, allN_iff, decide_eq_true_eq, LoopInv]
+  constructor
+  · rintro ⟨⟨⟨a, b⟩, c⟩, d⟩; exact ⟨a, b, c, d⟩
+  · rintro ⟨a, b, c, d⟩; exact ⟨⟨⟨a, b⟩, c⟩, d⟩
+
+/-- a seat moved into an upgradable cell / out of a downgradable cell leaves the cell between its signposts -/
+theorem transfer_cell_up {q qt : Rat} {s : Nat} (h : isUp q qt s = true) : isRounding q qt (s + 1) :=
+  isRounding_up h
+theorem transfer_cell_down {q qt : Rat} {s : Nat} (h : isDown q qt s = true) : isRounding q qt (s - 1) :=
+  isRounding_down h
+
+/-- **The transfer step keeps the party totals** (and the shape).  `labD`/`labP` are any labels with the meaning
+    `_labeled` gives them (`labeled_ok`). -/
+theorem augment_preserves_columns {q : Rat} {qt : Nat → Nat → Rat} {m n : Nat} {x x' : Mat Nat}
+    {labD : LabD} {labP : LabP} {start fuel : Nat} {over : List Nat}
+    (hs : shapeOk x m n = true) (hD : LabDOk q qt x m n labD) (hP : LabPOk q qt x m n labP)
+    (h : augment x labD labP start over fuel = .ok x') :
+    shapeOk x' m n = true ∧ ∀ j, ∑ i ∈ range m, mget x' i j = ∑ i ∈ range m, mget x i j := by
+  unfold augment at h
+  cases hpath : augPath labD labP over fuel start with
+  | error e => rw [hpath] at h; simp at h
+  | ok path =>
+    rw [hpath] at h
+    obtain ⟨h1, h2⟩ := applyPath_cols path x x' hs (augPath_cells hD hP _ _ _ hpath).pathIn h
+    exact ⟨h1, fun j => by rw [← sumN_eq_sum, ← sumN_eq_sum]; exact h2 j⟩
+
+/-- **The transfer step keeps the invariant**: after `_augment_result` every cell is still between its signposts
+    under the (unchanged) multipliers. -/
+theorem transfer_preserves_inv {q : Rat} {V : Mat Rat} {tgt : List Nat} {s s' : State}
+    (hs : shapeOk s.x V.length (nCols V) = true) (hinv : LoopInv q V V.length (nCols V) s)
+    (h : step q V tgt s = .ok (.transfer s')) :
+    shapeOk s'.x V.length (nCols V) = true ∧ LoopInv q V V.length (nCols V) s' ∧
+    ∀ j, ∑ i ∈ range V.length, mget s'.x i j = ∑ i ∈ range V.length, mget s.x i j := by
+  obtain ⟨hdc, hpc, path, hcells, happ, labD, labP, over, f, start, hpath⟩ := step_transfer h
+  obtain ⟨hshape', hcols⟩ := applyPath_cols path s.x s'.x hs hcells.pathIn happ
+  refine ⟨hshape', ⟨?_, ?_, ?_⟩, fun j => by rw [← sumN_eq_sum, ← sumN_eq_sum]; exact hcols j⟩
+  · rw [hdc]; exact hinv.1
+  · rw [hpc]; exact hinv.2.1
+  · intro i hi j hj
+    have hq : quot V s' i j = quot V s i j := by unfold quot; rw [hdc, hpc]
+    rw [hq]
+    have hcount := applyPath_count path s.x s'.x hs hcells.pathIn happ i j
+    have hnd1 := augPath_nodup _ _ _ hpath
+    have hnd3 := chain_thirds_nodup _ _ (augPath_chain _ _ _ hpath) hnd1
+    have hu : ups path i j ≤ 1 :=
+      countP_le_one_of_nodup_map (·.1) path hnd1 i _ (fun t ht => by
+        simp only [Bool.and_eq_true, beq_iff_eq] at ht; exact ht.1)
+    have hd : downs path i j ≤ 1 :=
+      countP_le_one_of_nodup_map (·.2.2) path hnd3 i _ (fun t ht => by
+        simp only [Bool.and_eq_true, beq_iff_eq] at ht; exact ht.1)
+    have hr := hinv.2.2 i hi j hj
+    have hup : 0 < ups path i j → isUp q (quot V s i j) (mget s.x i j) = true := by
+      intro hpos
+      obtain ⟨t, ht, hp⟩ := List.countP_pos_iff.mp hpos
+      simp only [Bool.and_eq_true, beq_iff_eq] at hp
+      have := (hcells t ht).2.2.2.1
+      rw [hp.1, hp.2] at this; exact this
+    have hdown : 0 < downs path i j → isDown q (quot V s i j) (mget s.x i j) = true := by
+      intro hpos
+      obtain ⟨t, ht, hp⟩ := List.countP_pos_iff.mp hpos
+      simp only [Bool.and_eq_true, beq_iff_eq] at hp
+      have := (hcells t ht).2.2.2.2
+      rw [hp.1, hp.2] at this; exact this
+    by_cases hu0 : ups path i j = 0
+    · by_cases hd0 : downs path i j = 0
+      · have : mget s'.x i j = mget s.x i j := by omega
+        rw [this]; exact hr
+      · have hdn := hdown (by omega)
+        have hge : 1 ≤ mget s.x i j := by
+          simp only [isDown, Bool.and_eq_true, decide_eq_true_eq] at hdn; exact hdn.2
+        have : mget s'.x i j = mget s.x i j - 1 := by omega
+        rw [this]; exact isRounding_down hdn
+    · have hupc := hup (by omega)
+      by_cases hd0 : downs path i j = 0
+      · have : mget s'.x i j = mget s.x i j + 1 := by omega
+        rw [this]; exact isRounding_up hupc
+      · exact absurd (hdown (by omega)) (fun hh => isUp_isDown_false hupc hh)
+
+/-- **The multiplier update keeps the invariant** (`_adj_coef` and L631-634). -/
+theorem update_preserves_inv {q : Rat} {V : Mat Rat} {tgt : List Nat} {s s' : State} {c : Rat}
+    (hq1 : q < 1) (hV : votesOk V = true)
+    (hinv : LoopInv q V V.length (nCols V) s) (h : step q V tgt s = .ok (.update s' c)) :
+    s'.x = s.x ∧ 0 < c ∧ c < 1 ∧ LoopInv q V V.length (nCols V) s' := by
+  obtain ⟨hx, hc0, hc1, labD, labP, hadj, _, _⟩ := step_update h
+  have hcnn := (adjCoef_bounds hq1 hadj).1
+  exact ⟨hx, lt_of_le_of_ne hcnn (Ne.symm hc0), hc1, update_inv hq1 (votesOk_nonneg hV) hinv h⟩
+
+/-- **Termination test**: the loop only returns when every district holds exactly its target. -/
+theorem step_done_rows {q : Rat} {V : Mat Rat} {tgt : List Nat} {s : State}
+    (hs : shapeOk s.x V.length (nCols V) = true) (h : step q V tgt s = .ok .done) :
+    ∀ i < V.length, ∑ j ∈ range (nCols V), mget s.x i j = tgt.getD i 0 := by
+  intro i hi
+  rw [← step_done h i hi, ← sumN_eq_sum]
+  unfold rowSum
+  rw [← sumN_getD, shapeOk_row hs hi]
+  rfl
+
+/-- what a successful run of the loop guarantees (partial correctness of the port, any fuel, any size) -/
+theorem run_ok_sound {q : Rat} {V : Mat Rat} {tgt : List Nat} (hq1 : q < 1) (hV : votesOk V = true) :
+    ∀ (fuel : Nat) (s : State) (nt : Nat) (ups : List Rat) (o : Outcome),
+      stateOk q V s = true → run q V tgt fuel s nt ups = .ok o →
+      shapeOk o.final.x V.length (nCols V) = true ∧
+      (∀ i < V.length, ∑ j ∈ range (nCols V), mget o.final.x i j = tgt.getD i 0) ∧
+      (∀ j, ∑ i ∈ range V.length, mget o.final.x i j = ∑ i ∈ range V.length, mget s.x i j) ∧
+      (∀ i < V.length, ∀ j < nCols V, vget V i j = 0 → mget o.final.x i j = 0) ∧
+      (∀ i < V.length, 0 < o.final.dc.getD i 0) ∧ (∀ j < nCols V, 0 < o.final.pc.getD j 0) ∧
+      (∀ i < V.length, ∀ j < nCols V,
+        isRounding q (vget V i j * o.final.dc.getD i 0 * o.final.pc.getD j 0) (mget o.final.x i j))
+  | 0, _, _, _, _, _, h => by simp [run] at h
+  | fuel+1, s, nt, ups, o, hok, h => by
+    obtain ⟨hs, hinv⟩ := stateOk_iff.mp hok
+    simp only [run] at h
+    cases hstep : step q V tgt s with
+    | error e => rw [hstep] at h; simp at h
+    | ok r =>
+      rw [hstep] at h
+      cases r with
+      | done =>
+        simp only [Except.ok.injEq] at h
+        subst h
+        refine ⟨hs, step_done_rows hs hstep, fun _ => rfl, ?_, hinv.1, hinv.2.1, hinv.2.2⟩
+        intro i hi j hj hv
+        have := hinv.2.2 i hi j hj
+        unfold quot at this
+        rw [hv] at this
+        simp only [zero_mul] at this
+        exact isRounding_zero_votes q hq1 _ this
+      | transfer s' =>
+        simp only at h
+        obtain ⟨hs', hinv', hcols⟩ := transfer_preserves_inv hs hinv hstep
+        obtain ⟨a, b, c, d, e⟩ := run_ok_sound hq1 hV fuel s' _ _ o (stateOk_iff.mpr ⟨hs', hinv'⟩) h
+        exact ⟨a, b, fun j => by rw [c j, hcols j], d, e⟩
+      | update s' cf =>
+        simp only at h
+        obtain ⟨hx, _, _, hinv'⟩ := update_preserves_inv hq1 hV hinv hstep
+        obtain ⟨a, b, c, d, e⟩ := run_ok_sound hq1 hV fuel s' _ _ o (stateOk_iff.mpr ⟨by rw [hx]; exact hs, hinv'⟩) h
+        exact ⟨a, b, fun j => by rw [c j, hx], d, e⟩
+
+/-- party totals never change during a run (needs only the shape of the seat matrix) -/
+theorem run_preserves_columns {q : Rat} {V : Mat Rat} {tgt : List Nat} :
+    ∀ (fuel : Nat) (s : State) (nt : Nat) (ups : List Rat) (o : Outcome),
+      shapeOk s.x V.length (nCols V) = true → run q V tgt fuel s nt ups = .ok o →
+      shapeOk o.final.x V.length (nCols V) = true ∧
+      ∀ j, ∑ i ∈ range V.length, mget o.final.x i j = ∑ i ∈ range V.length, mget s.x i j
+  | 0, _, _, _, _, _, h => by simp [run] at h
+  | fuel+1, s, nt, ups, o, hs, h => by
+    simp only [run] at h
+    cases hstep : step q V tgt s with
+    | error e => rw [hstep] at h; simp at h
+    | ok r =>
+      rw [hstep] at h
+      cases r with
+      | done => simp only [Except.ok.injEq] at h; subst h; exact ⟨hs, fun _ => rfl⟩
+      | transfer s' =>
+        simp only at h
+        obtain ⟨_, _, path, hcells, happ, _⟩ := step_transfer hstep
+        obtain ⟨hs', hcols⟩ := applyPath_cols path s.x s'.x hs hcells.pathIn happ
+        obtain ⟨a, b⟩ := run_preserves_columns fuel s' _ _ o hs' h
+        exact ⟨a, fun j => by rw [b j, ← sumN_eq_sum, ← sumN_eq_sum]; exact hcols j⟩
+      | update s' cf =>
+        simp only at h
+        have hx := (step_update hstep).1
+        obtain ⟨a, b⟩ := run_preserves_columns fuel s' _ _ o (by rw [hx]; exact hs) h
+        exact ⟨a, fun j => by rw [b j, hx]⟩
+
+/-- a successful run meets every district target (needs only the shape of the seat matrix) -/
+theorem run_ok_rows {q : Rat} {V : Mat Rat} {tgt : List Nat} :
+    ∀ (fuel : Nat) (s : State) (nt : Nat) (ups : List Rat) (o : Outcome),
+      shapeOk s.x V.length (nCols V) = true → run q V tgt fuel s nt ups = .ok o →
+      ∀ i < V.length, ∑ j ∈ range (nCols V), mget o.final.x i j = tgt.getD i 0
+  | 0, _, _, _, _, _, h => by simp [run] at h
+  | fuel+1, s, nt, ups, o, hs, h => by
+    simp only [run] at h
+    cases hstep : step q V tgt s with
+    | error e => rw [hstep] at h; simp at h
+    | ok r =>
+      rw [hstep] at h
+      cases r with
+      | done => simp only [Except.ok.injEq] at h; subst h; exact step_done_rows hs hstep
+      | transfer s' =>
+        simp only at h
+        obtain ⟨_, _, path, hcells, happ, _⟩ := step_transfer hstep
+        exact run_ok_rows fuel s' _ _ o (applyPath_cols path s.x s'.x hs hcells.pathIn happ).1 h
+      | update s' cf =>
+        simp only at h
+        exact run_ok_rows fuel s' _ _ o (by rw [(step_update hstep).1]; exact hs) h
+
+/-- **Partial correctness of the ported evaluator.**  If `evaluate` returns a seat matrix, and the state before the
+    loop is consistent (`stateOk`, decidable; the driver confirms it on every generated case), then the matrix meets
+    the district targets, keeps the party totals of the initial party-proportional solution, seats no zero-vote cell
+    and is a cell-wise signpost rounding under the final (positive) multipliers. -/
+theorem evaluate_ok_sound {div : Nat → Rat} {q : Rat} {V : Mat Rat} {total fuel : Nat} {rows : Option (List Nat)}
+    {o : Outcome} (hq1 : q < 1) (hV : votesOk V = true)
+    (hinit : ∀ s0, initState div q V total = .ok s0 → stateOk q V s0 = true)
+    (h : evaluate div q V total rows fuel = .ok o) :
+    ∃ s0 tgt, initState div q V total = .ok s0 ∧
+      (rows = some tgt ∨ (rows = none ∧ districtSeats div V total = .ok tgt)) ∧
+      shapeOk o.final.x V.length (nCols V) = true ∧
+      (∀ i < V.length, ∑ j ∈ range (nCols V), mget o.final.x i j = tgt.getD i 0) ∧
+      (∀ j, ∑ i ∈ range V.length, mget o.final.x i j = ∑ i ∈ range V.length, mget s0.x i j) ∧
+      (∀ i < V.length, ∀ j < nCols V, vget V i j = 0 → mget o.final.x i j = 0) ∧
+      (∀ i < V.length, 0 < o.final.dc.getD i 0) ∧ (∀ j < nCols V, 0 < o.final.pc.getD j 0) ∧
+      (∀ i < V.length, ∀ j < nCols V,
+        isRounding q (vget V i j * o.final.dc.getD i 0 * o.final.pc.getD j 0) (mget o.final.x i j)) := by
+  unfold evaluate at h
+  cases hs0 : initState div q V total with
+  | error e => rw [hs0] at h; simp at h
+  | ok s0 =>
+    rw [hs0] at h
+    simp only at h
+    cases rows with
+    | some l =>
+      simp only at h
+      exact ⟨s0, l, rfl, Or.inl rfl, run_ok_sound hq1 hV fuel s0 0 [] o (hinit s0 hs0) h⟩
+    | none =>
+      simp only at h
+      cases hd : districtSeats div V total with
+      | error e => rw [hd] at h; simp at h
+      | ok tgt =>
+        rw [hd] at h
+        simp only at h
+        exact ⟨s0, tgt, rfl, Or.inr ⟨rfl, rfl⟩, run_ok_sound hq1 hV fuel s0 0 [] o (hinit s0 hs0) h⟩
+
+/-! ### non-vacuity: concrete inputs that meet the hypotheses and exercise every branch -/
+
+/-- the witness of fix 7aec924 (tie inside the per-party initial allocation, one transfer) -/
+def exV : Mat Rat := [[3, 2], [5, 10], [3, 2]]
+
+example : votesOk exV = true := by decide +kernel
+example : (initState Gen.Divisor.d_hondt 0 exV 10).toOption.map (stateOk 0 exV) = some true := by decide +kernel
+example : (evaluate Gen.Divisor.d_hondt 0 exV 10 none 100).toOption.map (fun o => (o.final.x, o.transfers))
+    = some ([[1, 1], [2, 4], [1, 1]], 1) := by decide +kernel
+/-- its certificate passes the verified checker -/
+example : bipropCheckL 0 exV [2, 6, 2] [4, 6] [[1, 1], [2, 4], [1, 1]] [1, 1, 1] [1/2, 1/2] = true := by
+  decide +kernel
+/-- a wrong matrix (district totals 2,7,1) is rejected -/
+example : bipropCheckL 0 exV [2, 6, 2] [4, 6] [[1, 1], [2, 5], [1, 0]] [1, 1, 1] [1/2, 1/2] = false := by
+  decide +kernel
+
+/-- Sainte-Laguë, zero cells, one transfer and three multiplier updates -/
+def exW : Mat Rat := [[30, 0, 5], [0, 20, 10], [7, 8, 40]]
+example : votesOk exW = true := by decide +kernel
+example : (initState Gen.Divisor.sainte_lague (1/2) exW 9).toOption.map (stateOk (1/2) exW) = some true := by
+  decide +kernel
+example : (evaluate Gen.Divisor.sainte_lague (1/2) exW 9 none 100).toOption.map
+    (fun o => (o.final.x, o.final.dc, o.final.pc, o.updates))
+    = some ([[3, 0, 0], [0, 1, 1], [0, 1, 3]], [1, 1, 6/7], [1/12, 7/96, 3/40], [12/13, 65/66, 33/35]) := by
+  decide +kernel
+example : bipropCheckL (1/2) exW [3, 2, 4] [3, 2, 4] [[3, 0, 0], [0, 1, 1], [0, 1, 3]] [1, 1, 6/7] [1/12, 7/96, 3/40]
+    = true := by decide +kernel
+
+/-- a justified refusal: district 0 votes only for party 0, which holds 2 seats, but is to get 4 -/
+example : (evaluate Gen.Divisor.d_hondt 0 [[5, 0], [3, 9]] 6 (some [4, 2]) 100).toOption.isNone = true := by
+  decide +kernel
+example : infeasibleCheckL [[5, 0], [3, 9]] [4, 2] [2, 4] [0] [0] = true := by decide +kernel
+/-- the cut is rejected for a feasible instance -/
+example : infeasibleCheckL [[5, 0], [3, 9]] [2, 4] [2, 4] [0] [0] = false := by decide +kernel
+
 end VL.C07
